@@ -482,7 +482,7 @@ pub fn run_batch(seed: u64, start: u64, count: u64, tier: &str, budget_ms: u64, 
         }
         for h in hits {
             let key = key_of(&h);
-            if !sum.class_first(&key) {
+            if !sum.class_first(&key) || sum.violations.len() >= 16 {
                 continue;
             }
             // minimise the history: drop operations while the same class persists (any damage of the catalogue)
@@ -491,7 +491,7 @@ pub fn run_batch(seed: u64, start: u64, count: u64, tier: &str, budget_ms: u64, 
             let mut scratch = Summary::new("C13", 0);
             let mut tries = 0;
             let mut i = 0;
-            while i < best.ops.len() && tries < 25 {
+            while i < best.ops.len() && tries < 25 && sum.violations.len() < 8 {
                 let mut cand = best.clone();
                 cand.ops.remove(i);
                 tries += 1;
